@@ -129,6 +129,8 @@ PATTERN_PART_FIELDS = {
 
 
 PEP440_PART_SUBSTITUTIONS = {
+    '0Y'   : "YY",
+    '0G'   : "GG",
     '0W'   : "WW",
     '0U'   : "UU",
     '0V'   : "VV",
